@@ -225,6 +225,23 @@ func checkPrimariesGenerators(p *Program, r *Report, pre string) {
 		r.Violate(rule, "TransformToXYZ shape", p.FnPos(toFn), fmt.Sprintf("expected one returning path (plus the singular-input panic), found %d returning of %d", len(rets), len(outs)))
 		return
 	}
+	// the only inputs rejected are the exactly singular ones: the returning path carries one
+	// condition (the determinant of Inverse is not zero) and every other path is that panic
+	{
+		good, why := true, ""
+		if len(rets[0].St.conds) != 1 || rets[0].St.conds[0].Op != "!=" {
+			good, why = false, fmt.Sprintf("the returning path is taken under %d conditions [%s]; required only `det != 0` of Matrix3.Inverse: some non-degenerate primaries (an orientation, a size, a range) are refused", len(rets[0].St.conds), trunc(condKeys(rets[0]), 200))
+		}
+		for _, o := range outs {
+			if o.Kind == "return" {
+				continue
+			}
+			if o.Kind != "panic" || len(o.St.conds) != 1 || len(rets[0].St.conds) != 1 || o.St.conds[0].Key() != rets[0].St.conds[0].Not().Key() {
+				good, why = false, fmt.Sprintf("a path ends in %s at %s under [%s], which is not the `det == 0` panic of Matrix3.Inverse: well-formed primaries can be rejected", o.Kind, p.Pos(o.Pos), trunc(condKeys(o), 200))
+			}
+		}
+		r.Check(good, rule, "TransformToXYZ rejects only singular input", p.FnPos(toFn), "one returning path under `det != 0` and one panic under `det == 0`: nothing else is refused", why)
+	}
 	T, ok := mat3(rets[0].Ret)
 	if !ok {
 		r.Undecide(rule, "TransformToXYZ", p.FnPos(toFn), "result is not a 3x3 matrix")
